@@ -1164,4 +1164,26 @@ def rule_position_token(prog):
                     ("comment", "stmt"))
     if m < 1:
         out.missing("statement search by cursor position in features::completion (found %d)" % m)
+    # a comment never decides *that nothing is proposed*: no branch of the completion code whose condition inspects comment tokens
+    # ends in `None` / an empty answer.  (A comment token covers its line break, and the position that is classified is the cursor
+    # offset minus one: "the cursor is inside a comment" is also true in column 0 of the line below every comment.)
+    for b in c.bodies:
+        if not b["p"].startswith("lsp4spl::features::completion") or "/tests" in c.file_of(b["sp"]):
+            continue
+        for iff in hir.nodes(b["body"], "If"):
+            if not tests_comment(iff["cond"], c):
+                continue
+            gives_up = False
+            for x in hir.nodes(iff["then"]):
+                if x.get("k") == "Ret" and x.get("e") is not None:
+                    if any(last(p_["res"].get("ctor_of", "")) == "None" for p_ in hir.nodes(x["e"], "Path")):
+                        gives_up = True
+            tail = hir.strip(iff["then"])
+            tail = tail["b"].get("expr") if tail.get("k") == "BlockExpr" else None
+            if tail is not None and hir.strip(tail).get("k") == "Path" and last(hir.strip(tail)["res"].get("ctor_of", "")) == "None":
+                gives_up = True
+            if gives_up:
+                out.add(b["d"], "no branch that inspects comment tokens answers with `no proposals`", False, c.loc(iff["sp"]),
+                        "a test on comment tokens decides that nothing is proposed: the range of a comment token includes its line break and "
+                        "the classified position is one in front of the cursor, so column 0 below any comment line gets no proposals", ("comment", "suppress"))
     return out
